@@ -23,6 +23,17 @@ def big_int() -> st.SearchStrategy:
     )
 
 
+def weighted(*strategies: st.SearchStrategy) -> st.SearchStrategy:
+    """one_of in which repeating a strategy object raises its weight.  (st.one_of drops branches that are the same object, so
+    `one_of(a, a, b)` picks a and b with equal probability.)"""
+    seen: set = set()
+    parts = []
+    for s in strategies:
+        parts.append(s.map(lambda x: x) if id(s) in seen else s)
+        seen.add(id(s))
+    return st.one_of(*parts)
+
+
 def integers() -> st.SearchStrategy:
     return st.one_of(
         st.sampled_from(EDGE_INTS),
@@ -51,7 +62,7 @@ def scalars(big: bool = True) -> st.SearchStrategy:
     pool = st.sampled_from(SCALAR_POOL)
     rnd = st.one_of(st.integers(-2**70, 2**70), st.floats(allow_nan=False, allow_infinity=False),
                     st.text(st.characters(exclude_categories=['Cs']), max_size=12))
-    return st.one_of(pool, pool, pool, rnd, big_int()) if big else st.one_of(pool, pool, pool, rnd)
+    return weighted(pool, pool, pool, rnd, big_int()) if big else weighted(pool, pool, pool, rnd)
 
 
 def keys() -> st.SearchStrategy:
@@ -89,7 +100,7 @@ def _build_pool() -> list:
 
 def json_value(max_leaves: int = 12, big: bool = True) -> st.SearchStrategy:
     pool = st.sampled_from(POOL)
-    return st.one_of(pool, pool, scalars(big), _recursive_value(max_leaves, big))
+    return weighted(pool, pool, scalars(big), _recursive_value(max_leaves, big))
 
 
 def json_container(max_leaves: int = 8) -> st.SearchStrategy:
